@@ -70,16 +70,18 @@ Section SaveDir.
   Notation SAVE := (save md_enc lock_enc json_valid sanitize is_semver rest_valid).
   Notation SAVENAME := (save_filename sanitize is_semver rest_valid).
 
-  (* the loop over c.Dependencies(): Save(dep, <outdir>/charts) *)
-  Fixpoint save_deps (t : list file) (deps : list chart) : option (list file) :=
+  (* the loop over c.Dependencies(): Save(dep, <outdir>/charts) -- the archive is created at
+     filepath.Join(<outdir>/charts, <name>-<version>.tgz), a cleaned path (a dependency named "/"
+     gives charts/-<version>.tgz) *)
+  Fixpoint save_deps (name : string) (t : list file) (deps : list chart) : option (list file) :=
     match deps with
     | [] => Some t
     | d :: r =>
         match SAVENAME d, SAVE d with
         | Some fname, Some es =>
-            match dir_put t ("charts/" ++ fname) (tgz es) with
+            match dir_write name t ("charts/" ++ fname) (tgz es) with
             | None => None
-            | Some t' => save_deps t' r
+            | Some t' => save_deps name t' r
             end
         | _, _ => None
         end
@@ -114,7 +116,7 @@ Section SaveDir.
                 | Some t4 =>
                     match dir_write_all name t4 (c_files c) with
                     | None => None
-                    | Some t5 => save_deps t5 (c_deps c)
+                    | Some t5 => save_deps name t5 (c_deps c)
                     end
                 end
             end
